@@ -77,6 +77,9 @@ func c02Core(c *Check, P string, r *RouterRoles) {
 		return false
 	}
 	pubOK, _ := NilEdges(D, pubErr)
+	// "every message it returned was accepted" is vacuous when the chain returned none
+	noOutputs, _ := LenZeroEdges(D, func(v ssa.Value) bool { return AllOrigins(v, ResultOfAny(r.ChainCalls, 0)) })
+	pubOK = append(pubOK, noOutputs...)
 	c.Floor(P+".O1", "test `chain error == nil`", len(chainOK), 1)
 	c.Floor(P+".O1", "test `publish error == nil`", len(pubOK), 1)
 
@@ -176,7 +179,22 @@ func c02Core(c *Check, P string, r *RouterRoles) {
 				return false
 			}
 			_, panicked := NilEdges(cl, func(v ssa.Value) bool { return AllOrigins(v, isRec) })
-			clMsg := func(v ssa.Value) bool { return AllOrigins(v, IsParam(r.MsgParam)) }
+			clMsg := func(v ssa.Value) bool {
+				return AllOrigins(v, func(o ssa.Value) bool {
+					if o == ssa.Value(r.MsgParam) {
+						return true
+					}
+					// `defer h.method(msg, …)`: a parameter of the deferred function bound to the consumed message
+					if p, ok := o.(*ssa.Parameter); ok && p.Parent() == cl {
+						for i, q := range cl.Params {
+							if q == p && i < len(d.Call.Args) && isMsg(d.Call.Args[i]) {
+								return true
+							}
+						}
+					}
+					return false
+				})
+			}
 			cn := SettleSites(cl, nNack, clMsg, 1)
 			ca := SettleSites(cl, nAck, clMsg, 1)
 			if len(panicked) == 0 {
